@@ -65,6 +65,9 @@ type rec struct {
 	Cls    []string `json:"cls"`
 	AltOK  bool     `json:"altok"`  // diagnosis only: the answer if the event were judged by its own auth events found in the state
 	AltCls []string `json:"altcls"` // diagnosis only
+	PV     string   `json:"pv"`     // chain: how the provider answers one call: exact | over (the whole chain below the asked events)
+	TR     string   `json:"tr"`     // backfill: the provider's transient fault during the first server's round: errors | nothing
+	Cls1   []string `json:"cls1"`   // backfill: classes of the first round
 }
 
 func (r *rec) ev(id int) *ev { return &r.Events[id-1] }
@@ -83,7 +86,7 @@ func (r *rec) faultKey() string {
 		if e.F != "none" {
 			parts = append(parts, e.F+":"+t)
 		}
-		if e.P != "returns" && (askable[e.ID] || r.Kind == "load") {
+		if e.P != "returns" && (askable[e.ID] || r.Kind == "load" || r.Kind == "backfill") {
 			parts = append(parts, e.P+":"+t)
 		}
 	}
